@@ -564,8 +564,10 @@ class PortNamespace(collections.abc.MutableMapping, Port):
                 continue
 
             if isinstance(port, PortNamespace):
-                # If the name does not appear at the start of any of the include rules we continue:
-                if include and not any(rule.startswith(port_name) for rule in include):
+                # If none of the include rules selects this namespace or something nested in it we continue. Note that
+                # the rule has to match the complete name: `abc.x` must not select a sibling namespace called `ab`
+                prefix = f'{port_name}{self.NAMESPACE_SEPARATOR}'
+                if include and not any(rule == port_name or rule.startswith(prefix) for rule in include):
                     continue
 
                 # Determine the sub exclude and include rules for this specific namespace
